@@ -84,7 +84,8 @@ def dpm(ipeak, momsin, momcos):
         return np.nan
     else:
         dpm = np.arctan2(momsin[ipeak], momcos[ipeak])
-        return np.float32((270 - R2D * dpm) % 360.0)
+        # Rounding to single precision can land exactly on 360, reduce again after the cast
+        return np.float32((270 - R2D * dpm) % 360.0) % np.float32(360.0)
 
 
 def dp(ipeak, dir):
